@@ -176,6 +176,10 @@ pub struct RunSpec {
     /// internal source modules registered at interpreter creation: specifier -> source
     #[serde(default)]
     pub internal_sources: BTreeMap<String, String>,
+    /// order ids of EARLIER runs on the same interpreter that were never answered: a slow host
+    /// delivers their answers now, at this run's first suspension, before its own answers
+    #[serde(default)]
+    pub stale_answer_ids: Vec<u64>,
 }
 
 #[derive(Clone, Debug, Default)]
@@ -377,6 +381,11 @@ pub struct Run {
 pub const MAX_ROUNDS: u64 = 400;
 
 impl Run {
+    /// ids of orders this run reported and the host has not answered
+    pub fn unanswered_ids(&self) -> Vec<u64> {
+        self.unanswered.iter().map(|(id, _)| id.0).collect()
+    }
+
     pub fn new(spec: RunSpec) -> Run {
         let tape = spec.tape.clone();
         Run {
@@ -551,6 +560,17 @@ impl Run {
             h.interp.collect();
             self.out.forced_collects += 1;
             self.out.live_at_suspend.push(h.interp.gc_stats().live_objects as u64);
+        }
+        if !self.spec.stale_answer_ids.is_empty() {
+            let ids = std::mem::take(&mut self.spec.stale_answer_ids);
+            let responses: Vec<OrderResponse> = ids
+                .iter()
+                .map(|id| OrderResponse { id: OrderId(*id), result: Ok(RuntimeValue::unguarded(JsValue::from("answer meant for an earlier run"))) })
+                .collect();
+            h.interp.fulfill_orders(responses);
+            // ... and the host steps once before it gets round to this run's own orders
+            self.out.idle_steps += 1;
+            return;
         }
         if self.unanswered.is_empty() && self.deferred.is_empty() {
             // Nothing the host can do. One extra step is allowed (in-program promise jobs may
